@@ -1,0 +1,38 @@
+//go:build verif
+// +build verif
+
+package hotrestart
+
+import (
+	"net"
+	"syscall"
+)
+
+// This file only exists with the `verif` build tag. It exposes unexported
+// pieces of the package to the external verification harness.
+
+// VerifMessage is a copy of message.
+type VerifMessage struct {
+	Type uint8
+	Len  uint16
+	Data []byte
+}
+
+// VerifSendMessage sends a message with sendMessage.
+func VerifSendMessage(conn *net.UnixConn, typ uint8, data []byte) error {
+	return sendMessage(conn, &message{Type: messageType(typ), Len: uint16(len(data)), Data: data})
+}
+
+// VerifReadMessage reads a message with readMessage.
+func VerifReadMessage(conn *net.UnixConn) (*VerifMessage, error) {
+	msg, err := readMessage(conn)
+	if err != nil {
+		return nil, err
+	}
+	return &VerifMessage{Type: uint8(msg.Type), Len: msg.Len, Data: msg.Data}, nil
+}
+
+// VerifSetKill replaces the function used to terminate the process itself.
+func VerifSetKill(f func(pid int, sig int) error) {
+	kill = func(pid int, sig syscall.Signal) error { return f(pid, int(sig)) }
+}
